@@ -64,3 +64,27 @@ check('C19', 'other',
       'Regex substitution with callbacks, json, hashing and files are outside the pyvc subset.',
       'Bounds are stated per run in the evidence. Concurrent writers in separate processes are not covered.',
       'bounded exhaustive contract checking of the real functions (labelled bounded)', '3/C19')
+check('C07', 'other',
+      'Bounded stand-in, not a proof: 27 typed grammars x inputs x 7 ways of supplying classes; the model tree is compared with the plain-AST parse '
+      'through a type-tagging oracle; children()/parent/walkers are checked as data-structure invariants on every node produced. '
+      'Object-model synthesis is reflection (types.new_class, dataclass machinery, match on arbitrary objects): outside the pyvc subset, said so in DESIGN.md.',
+      'Bounds per run in the evidence (grammar family, input lengths). The process-wide class registry makes class identity history dependent (known finding).',
+      'bounded contract checking of the real functions against the plain-AST oracle (labelled bounded)', '3/C07')
+check('C10', 'other',
+      'Bounded stand-in, not a proof: all API call sequences up to length 3 over a pool of grammars x option variants; the result of the last call is compared '
+      'with the same call in a fresh interpreter process; grammar models, configs and semantics objects are snapshotted before/after. '
+      'The relational cache obligation (key determines every argument the result depends on) is not expressible in the current pyvc subset (reflection over **settings); '
+      'threads are not covered by this family at all.',
+      'Bounds: sequence length <= 3, 6 grammars x 8 variants. Schedules (threads) N/A.',
+      'bounded history enumeration against fresh-process references (labelled bounded)', '3/C10')
+check('C12', 'other',
+      'Bounded stand-in: exhaustive over all strings on {letter, space, LF, CR} up to the stated length x every offset for TextLines and both Buffer cursors against an '
+      'independent line splitter; parseinfo of dict ASTs and model nodes against an independent recomputation. The proof of build_line_cache (loop invariants over arrays) is planned in DESIGN 3/C12.',
+      'Bound: text length (quick <= 7). lineinfo(len) after a trailing line break is a known finding pinned by a repository test.',
+      'bounded exhaustive contract checking (labelled bounded)', '3/C12')
+check('C17', 'proof',
+      'Proved for ALL names and values (symbolic): the builtin filter is_unsafe_builtin_entry rejects every name the property forbids (open, eval, exec, compile, input, exit, quit, '
+      'getattr/setattr/delattr, globals/locals/vars, ... and every underscore name); for an arbitrary AST node the body of the checking loop completes only for nodes without raise/try, '
+      'dunder attribute access, unauthorised names or calls. Bounded: every builtin x plausible arguments through safe_eval and through real grammars under an audit hook.',
+      'Trusted: pyvc, z3, ast.walk yields every node (assumed), CPython eval with empty __builtins__. Attribute traversal inside str.format is a stated limit (known finding).',
+      'contract-based deductive verification (pyvc) + bounded audit-hook runs', '3/C17')
